@@ -48,6 +48,9 @@ func worldFor(seed int64, domain string) *gen.World {
 	if domain == "hand" {
 		return handWorld()
 	}
+	if domain == "hand_matrix" {
+		return handWorldMatrix()
+	}
 	opt := gen.DefaultWorldOptions()
 	if domain == "inputs" {
 		opt.InputArgs = true
@@ -121,6 +124,11 @@ func driveC01(seed int64, tier, out, replay string) {
 			op := gen.GenOp{Query: q, Kind: "query", Features: []string{"hand_shape"}}
 			cases = append(cases, fedCase{Domain: "hand", Op: &op, Cfg: cfgs[i%len(cfgs)]}, fedCase{Domain: "hand", Op: &op, Cfg: cfgs[(i+1)%len(cfgs)]})
 		}
+		// lists of lists of a Node type (fix bf16ed1): no step below them, that is the listed shape
+		for i, q := range []string{`{ me { matrix { kind } } }`, `{ humans { name matrix { id kind } } }`, `{ me { matrix { __typename kind } pets { kind } } }`} {
+			op := gen.GenOp{Query: q, Kind: "query", Features: []string{"hand_shape"}}
+			cases = append(cases, fedCase{Domain: "hand_matrix", Op: &op, Cfg: cfgs[i%len(cfgs)]})
+		}
 		for i := 0; i < nWorlds; i++ {
 			ws := rng.Int63()
 			for j := 0; j < opsPer; j++ {
@@ -144,6 +152,7 @@ func driveC01(seed int64, tier, out, replay string) {
 	// listed findings: replayed on the hand-written federation
 	if hand, err := NewRig(handWorld(), RigConfig{}); err == nil {
 		handP, _ := NewRig(handWorldPayload(), RigConfig{})
+		handM, _ := NewRig(handWorldMatrix(), RigConfig{})
 		for _, k := range loadKnown("C01") {
 			var kc struct {
 				Op    gen.GenOp `json:"operation"`
@@ -155,6 +164,9 @@ func driveC01(seed int64, tier, out, replay string) {
 			rig := hand
 			if kc.World == "payload" && handP != nil {
 				rig = handP
+			}
+			if kc.World == "matrix" && handM != nil {
+				rig = handM
 			}
 			what, _ := compareFed(rig, kc.Op)
 			if what != "" && !strings.HasPrefix(what, "skip:") {
